@@ -661,6 +661,64 @@ def style_classes(spec):
     return any(style and style.get("class") for caps in spec["langs"].values() for (_, _, _, _, style) in caps)
 
 
+WRITERS = [("pycaption/dfxp/base.py", "DFXPWriter"), ("pycaption/dfxp/extras.py", "SinglePositioningDFXPWriter"),
+           ("pycaption/dfxp/extras.py", "LegacyDFXPWriter"), ("pycaption/sami.py", "SAMIWriter"), ("pycaption/webvtt.py", "WebVTTWriter"),
+           ("pycaption/srt.py", "SRTWriter"), ("pycaption/microdvd.py", "MicroDVDWriter")]
+
+
+def reuse(ctx, report, rule="R-DOC-UNCHANGED", clause="2"):
+    """one writer object used for several caption sets in a row: what it writes for a set does not depend on what it wrote
+    before (A, B, A again: the two A documents are identical, and B's is the document a fresh writer gives), and every
+    set is unchanged afterwards - for the seven writers that can be folded"""
+    W = World(ctx)
+    picks = ("two languages", "italics 3", "caption layouts", "text 5", "span with its own text-align and a layout",
+             "two languages, interleaved", "document styles")
+    specs = [(label, spec) for label, spec in caption_sets(False) if label in picks]
+    # a set whose first language is another one, and one whose last caption ends inside a styled span
+    specs.insert(1, ("french first", {"langs": {"fr": [(S, 2 * S, ["bonjour"], None, None), (4 * S, 5 * S, ["salut"], None, None)],
+                                                "en-US": [(2 * S, 3 * S, ["hello"], None, None)]}}))
+    specs.insert(3, ("a span left open at the end", {"langs": {"en-US": [(S, 2 * S, ["plain ", ("i", True), "slanted to the end"], None, None)]}}))
+    bad = []
+    n = 0
+    fn0 = None
+    for path, cname in WRITERS:
+        cls = ctx.index.get_class(path, cname)
+        fn, init = cls.find_method("write"), cls.find_method("__init__")
+        fn0 = fn0 or fn
+        report.covered(fn)
+        for k in range(len(specs)):
+            (la, sa_), (lb, sb) = specs[k], specs[(k + 1) % len(specs)]
+            n += 1
+            case = {"writer": cname, "first_and_third": la, "second": lb}
+            try:
+                a, b = W.caption_set(sa_), W.caption_set(sb)
+                snap_a, snap_b = snapshot(a), snapshot(b)
+                me = Stub("writer", {}, cls=cls)
+                if init is not None:
+                    W.F.call_function(init, [], {}, self_value=me)
+                d1 = W.F.call_function(fn, [a], {}, self_value=me)
+                d2 = W.F.call_function(fn, [b], {}, self_value=me)
+                d3 = W.F.call_function(fn, [a], {}, self_value=me)
+                _, fresh_b, _ = W.write(path, cname, b)
+            except FoldRaise as e:
+                bad.append(dict(case, raises=f"{e.exc_name}: {e}"[:140]))
+                continue
+            except AnalysisError as e:
+                raise AnalysisError(f"{cname}.write (one object, three writes) cannot be folded on '{la}' / '{lb}': {e}")
+            if d3 != d1:
+                i = next((j for j in range(min(len(d1), len(d3))) if d1[j] != d3[j]), min(len(d1), len(d3)))
+                bad.append(dict(case, why="the third write differs from the first (same set, same writer object)",
+                                first=d1[max(0, i - 60):i + 60], third=d3[max(0, i - 60):i + 60]))
+            elif d2 != fresh_b:
+                i = next((j for j in range(min(len(d2), len(fresh_b))) if d2[j] != fresh_b[j]), min(len(d2), len(fresh_b)))
+                bad.append(dict(case, why="a used writer writes the second set differently from a fresh one",
+                                used=d2[max(0, i - 60):i + 60], fresh=fresh_b[max(0, i - 60):i + 60]))
+            elif snapshot(a) != snap_a or snapshot(b) != snap_b:
+                bad.append(dict(case, why="a caption set differs after the writes"))
+    report.check(not bad, rule, fn0, f"seven writers, one object each writing A, B, A over {len(specs)} caption sets ({n} sequences): the "
+                 "output for a set does not depend on what the object wrote before; the sets are unchanged", {"sequences": n, "mismatches": bad[:3]}, clause)
+
+
 TEXTS_BY_KEY = {
     "wellformed": "the DFXP document is well-formed XML with a tt root in the TTML namespace",
     "structure": "one div per language and one p carrying begin and end per caption",
